@@ -1,0 +1,12 @@
+//go:build verif
+// +build verif
+
+package explore
+
+import "time"
+
+// VerifSetRetryInterval changes the interval after which a failed probe is retried
+// (verification hook, build tag "verif").
+func (e *Explore) VerifSetRetryInterval(d time.Duration) {
+	e.retryInterval = d
+}
